@@ -1103,6 +1103,13 @@ PROPERTY FreshRecordsWithoutExecuting
                 break
             if any(v > 1 for a in st['execs'] for v in st['execs'][a].values()):
                 report.fail(dict(fp, **{'class': 'evolution-executed-twice'}), detail)
+        if obs.get('listed') is not None and obs['steps']:
+            last = obs['steps'][-1]
+            have = {a: {k: v for k, v in obs['listed'][a].items() if v} for a in obs['listed']}
+            want = {a: {int(k): v for k, v in last['rows'][a].items() if v} for a in last['rows']}
+            if have != want or obs.get('list_outcome') != 'ok':
+                report.fail({'part': 'ledger', 'class': 'list-evolutions-differs-from-rows'},
+                            {'history': label, 'listed': have, 'rows': want})
     return len(chosen)
 
 
